@@ -1,0 +1,27 @@
+//go:build verif
+
+// Contracts for the binary decoding of mappings, checked by /verif (govc). Comment-only.
+
+package mapping
+
+//@ pred SuffixM(b *[]byte) := arr(*b) == old(arr(*b)) && off(*b) >= old(off(*b)) && off(*b) + len(*b) == old(off(*b) + len(*b))
+
+//@ func decodeLogLikeIndexMapping
+//@   serves C08 C19
+//@   requires b != nil
+//@   ensures eof: old(len(*b)) < 16 ==> err != nil
+//@   ensures ok: old(len(*b)) >= 16 ==> err == nil && len(*b) == old(len(*b)) - 16
+//@   ensures SuffixM(b)
+//@   modifies *b
+
+// Decode: an unknown mapping flag, a truncated payload or a base not above 1 is reported; otherwise a mapping
+// satisfying the interface contract is returned and exactly the 16 payload bytes are consumed.
+//@ func Decode
+//@   serves C08 C19 C06
+//@   requires b != nil
+//@   ensures unknown: !(flag == enc.FlagIndexMappingBaseLogarithmic || flag == enc.FlagIndexMappingBaseLinear || flag == enc.FlagIndexMappingBaseCubic) ==> result1 != nil
+//@   ensures eof: old(len(*b)) < 16 ==> result1 != nil
+//@   ensures ok: result1 == nil ==> result != nil && MapOK(result) && len(*b) == old(len(*b)) - 16
+//@   ensures err: result1 != nil ==> result == nil
+//@   ensures SuffixM(b)
+//@   modifies *b
